@@ -18,8 +18,10 @@ func c15Cfg(extended, uniqueExtra, second bool) kit.WorldCfg {
 		Children: []kit.ChildCfg{{Name: "mgrs", Parent: "emps", Extended: extended, UniqueExtra: uniqueExtra}},
 	}
 	if second {
-		// a second child type over the same parent; an entity belongs to at most one of the two
-		cfg.Children = append(cfg.Children, kit.ChildCfg{Name: "ctrs", Parent: "emps"})
+		// a second child type over the same parent; an entity belongs to at most one of the two. The index of its
+		// own (if any) then lives on the later-registered store
+		cfg.Children[0].UniqueExtra = false
+		cfg.Children = append(cfg.Children, kit.ChildCfg{Name: "ctrs", Parent: "emps", UniqueExtra: uniqueExtra})
 	}
 	return cfg
 }
@@ -31,6 +33,9 @@ var c15Universe = kit.EntUniverse{
 	Notes:  []string{"", "n1"},
 	Extras: []string{"", "x1", "x2"},
 	Fields: []string{kit.FName, kit.FRoles, kit.FNote, kit.FExtra},
+	// occasionally a shared field holds a value the parent's own setters refuse (oversized set element, oversized
+	// name): the refusal has to reach the caller whichever store the write goes through
+	Hostile: true,
 }
 
 func genC15(t *rapid.T) kit.History {
